@@ -674,6 +674,8 @@ def _events_equal(ea, eb, assign=None) -> bool:
         return False
     for x, y in zip(ea, eb):
         if x[0] != y[0]:
+            if {x[0], y[0]} == {"for", "while"}:
+                _UNALIGNED.append((_ev_text(x)[:80], _ev_text(y)[:80]))
             return False
         if x[0] in ("for", "while"):
             if x[0] == "for":
@@ -695,7 +697,27 @@ def _events_equal(ea, eb, assign=None) -> bool:
     return True
 
 
+_UNALIGNED: list = []
+_DEPTH = [0]
+
+
 def compare_tables(a: frozenset, b: frozenset):
+    """Top-level entry: a difference that rests on a `for` loop on one side and a `while` loop on the other is not a difference the
+    tables can show -- the two loop forms are summarised differently -- so it is reported as undecided, not as a disagreement."""
+    if _DEPTH[0] == 0:
+        del _UNALIGNED[:]
+    _DEPTH[0] += 1
+    try:
+        eq, detail = _compare_tables(a, b)
+    finally:
+        _DEPTH[0] -= 1
+    if _DEPTH[0] == 0 and not eq and _UNALIGNED:
+        raise Inconclusive(f"the two implementations walk the same range with different loop forms ({_UNALIGNED[0][0]} / {_UNALIGNED[0][1]}): "
+                           "their decision tables cannot be aligned, equivalence is not established")
+    return eq, detail
+
+
+def _compare_tables(a: frozenset, b: frozenset):
     """Both tables are complete decision trees over atomic literals; they are equivalent iff every pair of
     mutually consistent rows agrees on (events, outcome, effects).
     Returns (equal, detail | list of differences)."""
